@@ -202,3 +202,10 @@ def c11_il_torn_pair_at_block_boundary(case, detail):
     == size of the first read, each half written, the pair never) on a case that interleaves the reader (case['il'])."""
     return (isinstance(case, dict) and bool(case.get('il')) and isinstance(detail, str)
             and detail.startswith('interleaved-read torn-pair:'))
+
+
+def c04_negative_bucket_count_without_sum(case, detail):
+    """C04 first direction: an instrumentation Histogram whose first bucket bound is negative is exposed with _count but
+    without _sum (Histogram._child_samples; pinned by tests/openmetrics/test_exposition.py::test_histogram_negative_buckets),
+    and the OpenMetrics parser rejects a histogram group with _count and no _sum."""
+    return 'must be present if _count is present' in str(detail)
